@@ -33,7 +33,7 @@
 EXTENDS Base62, FiniteSets
 
 CONSTANTS KeyWidth,      \* 32
-          Roles,         \* {"priv", "privpub", "trusted"}
+          Roles,         \* {"priv", "privpub", "trusted", "sharedown"}
           Padded,        \* BOOLEAN, see above
           Nodes, Passwords, KeyOf
 
@@ -85,6 +85,8 @@ ConfigureResultFor(r, ptext, qtext, gp, gq) ==
        [] r = "privpub" -> [ok |-> IsKey(p) /\ IsKey(q) /\ p = gp /\ q = gq,   \* the library checks that the halves match
                             priv |-> p, pub |-> q]
        [] r = "trusted" -> [ok |-> IsKey(q), priv |-> <<>>, pub |-> q]
+       \* two nodes share the pair; each lists the printed public key - its own - explicitly among other trusted keys
+       [] r = "sharedown" -> [ok |-> IsKey(p) /\ IsKey(q), priv |-> p, pub |-> q]
 ConfigureResult(r, ptext, qtext) == ConfigureResultFor(r, ptext, qtext, priv, pub)
 
 Configure(r) ==
@@ -98,6 +100,7 @@ SameKeyFor(r, c, gp, gq) ==
   CASE r = "priv"    -> c.priv = gp /\ c.pub = gq
     [] r = "privpub" -> c.priv = gp /\ c.pub = gq
     [] r = "trusted" -> c.pub = gq
+    [] r = "sharedown" -> c.priv = gp /\ c.pub = gq
     [] OTHER -> FALSE
 SameKey == SameKeyFor(role, cfg, priv, pub)
 
